@@ -2,6 +2,9 @@
    coq/C03/SamplerProofs.v, followed by Print Assumptions. *)
 From Coq Require Import QArith Qabs List Bool ZArith Arith.
 From Scenic Require Import C16.RegionAlg C03.Sampler C03.SamplerProofs.
+From Scenic Require C03.PolyChoice C01.ChoiceProofs.
+(* the evaluators of the generated correspondence cases belong to this property's build closure *)
+From Scenic Require C03.Cases.
 Import ListNotations.
 Open Scope Q_scope.
 
@@ -62,8 +65,39 @@ Section Generic.
     memb a A = true -> memb a B = true -> memb a' A = true -> memb a' B = true ->
     prob (inter_tree mu A B) a * mu a' == prob (inter_tree mu A B) a' * mu a.
   Proof. exact (inter_uniform mu). Qed.
+
+  (* n-ary intersection (IntersectionRegion.genericSampler with any number of operands; the operands of minimal
+     dimension [todo] are sampled in turn, every operand [all] must contain the point): exact law, membership,
+     support, uniformity *)
+  Theorem C03_inter_n_law : forall all todo a, (forall r, In r todo -> NoDup r /\ In r all) ->
+    prob (inter_tree_n mu all todo) a == if inall all a then mu a * inter_w mu all todo else 0.
+  Proof. exact (inter_n_law mu). Qed.
+  Theorem C03_gen_sampler_member_inter_n : forall all todo a, (forall r, In r todo -> NoDup r /\ In r all) ->
+    ~ prob (inter_tree_n mu all todo) a == 0 -> forall r, In r all -> memb a r = true.
+  Proof. exact (inter_n_member mu). Qed.
+  Theorem C03_gen_sampler_support_inter_n : forall all r rest a, (forall r', In r' (r :: rest) -> NoDup r' /\ In r' all) ->
+    (forall r', In r' all -> memb a r' = true) -> 0 < prob (inter_tree_n mu all (r :: rest)) a.
+  Proof. exact (inter_n_support mu mu_pos). Qed.
+  Theorem C03_gen_sampler_uniform_inter_n : forall all todo a a', (forall r, In r todo -> NoDup r /\ In r all) ->
+    (forall r, In r all -> memb a r = true) -> (forall r, In r all -> memb a' r = true) ->
+    prob (inter_tree_n mu all todo) a * mu a' == prob (inter_tree_n mu all todo) a' * mu a.
+  Proof. exact (inter_n_uniform mu). Qed.
+
+  (* polygon sampler: triangle by cumulative areas, then bounding-box rejection (n rounds of the loop): every atom of
+     triangle (B, T) has probability mu a / (area of the polygon) * (1 - q^n), q^n = mass still in the loop *)
+  Theorem C03_retry_law : forall n B T a, NoDup B ->
+    prob (retry_tree mu n B T) a == if memb a B && memb a T then mu a / size mu B * geom (miss mu B T) n else 0.
+  Proof. exact (retry_law mu). Qed.
+  Theorem C03_poly_law : forall n tris a, (forall bt, In bt tris -> NoDup (fst bt) /\ fst bt <> []) ->
+    prob (poly_tree mu n tris) a ==
+    sumf tris (fun bt => if memb a (tri_atoms (fst bt) (snd bt))
+                         then mu a / tri_total mu tris * (1 - qpow (miss mu (fst bt) (snd bt)) n) else 0).
+  Proof. exact (poly_law mu mu_pos). Qed.
 End Generic.
 Print Assumptions C03_union_law.
+Print Assumptions C03_inter_n_law.
+Print Assumptions C03_gen_sampler_support_inter_n.
+Print Assumptions C03_poly_law.
 Print Assumptions C03_gen_sampler_uniform_inter.
 
 (* discrete regions *)
@@ -74,7 +108,17 @@ Theorem C03_ps_inter_law : forall P O a, NoDup P ->
   prob (ps_inter_tree P O) a ==
   if memb a P && memb a O then 1 / qnat (length (filter (fun b => memb b O) P)) else 0.
 Proof. exact ps_inter_law. Qed.
+Theorem C03_ps_inter_member : forall P O a, NoDup P -> ~ prob (ps_inter_tree P O) a == 0 -> memb a P = true /\ memb a O = true.
+Proof. exact ps_inter_member. Qed.
+Theorem C03_ps_inter_support : forall P O a, NoDup P -> memb a P = true -> memb a O = true -> 0 < prob (ps_inter_tree P O) a.
+Proof. exact ps_inter_support. Qed.
+Theorem C03_ps_inter_uniform : forall P O a a', NoDup P -> memb a P = true -> memb a O = true -> memb a' P = true -> memb a' O = true ->
+  prob (ps_inter_tree P O) a == prob (ps_inter_tree P O) a'.
+Proof. exact ps_inter_uniform. Qed.
+Theorem C03_ps_inter_reject : forall P O, prej (ps_inter_tree P O) == if existsb (fun b => memb b O) P then 0 else 1.
+Proof. exact ps_inter_reject. Qed.
 Print Assumptions C03_ps_inter_law.
+Print Assumptions C03_ps_inter_support.
 
 (* primitive samplers: membership for ALL draws u in [0,1] *)
 Theorem C03_rect_sample_member : forall cx cy co si hw hl u1 u2,
@@ -108,6 +152,24 @@ Theorem C03_bisect_spec : forall cum x i, bisect cum x = i ->
 Proof. exact bisect_spec. Qed.
 Print Assumptions C03_bisect_spec.
 
+(* PolygonalRegion.uniformPointInner's triangle choice, on CPython's random.choices as modelled in C01 (binary bisect of
+   u * total in itertools.accumulate(areas)): triangle i is chosen exactly for the draws u with u * total in
+   [area_0 + .. + area_(i-1), .. + area_i) -- an interval of length area_i, so with probability area_i / total *)
+Theorem C03_triangle_choice_interval : forall areas u, areas <> [] -> (forall a, In a areas -> 0 < a) -> 0 <= u -> u < 1 ->
+  let i := PolyChoice.triangle_index areas u in
+  (i < length areas)%nat /\
+  PolyChoice.psum i areas <= u * ChoiceProofs.qsum areas /\ u * ChoiceProofs.qsum areas < PolyChoice.psum i areas + nth i areas 0.
+Proof. exact PolyChoice.triangle_choice_interval. Qed.
+Theorem C03_triangle_choice_unique : forall areas u j, areas <> [] -> (forall a, In a areas -> 0 < a) -> 0 <= u -> u < 1 ->
+  (j < length areas)%nat -> PolyChoice.psum j areas <= u * ChoiceProofs.qsum areas ->
+  u * ChoiceProofs.qsum areas < PolyChoice.psum j areas + nth j areas 0 -> PolyChoice.triangle_index areas u = j.
+Proof. exact PolyChoice.triangle_choice_unique. Qed.
+Print Assumptions C03_triangle_choice_interval.
+Example C03_triangle_choice_example :
+  PolyChoice.triangle_index [1; 3; 2] (1 # 2) = 1%nat /\ PolyChoice.triangle_index [1; 3; 2] (5 # 6) = 2%nat /\
+  PolyChoice.triangle_index [1; 3; 2] (1 # 7) = 0%nat.
+Proof. vm_compute. repeat split. Qed.
+
 (* non-vacuity: two overlapping regions with unequal measures *)
 Example C03_examples :
   let mu := fun a => match a with O => 1 | 1%nat => 2 | _ => 3 end in
@@ -116,5 +178,11 @@ Example C03_examples :
   prej (union_tree mu [[0;1]; [1;2]]%nat) == (2 # 8) /\
   prob (inter_tree mu [0;1] [1;2])%nat 1%nat == (2 # 3) + (1 # 3) * (2 # 5) /\
   prob (diff_tree mu [0;1] [1;2])%nat 0%nat == (1 # 3) /\
-  prob (ps_inter_tree [0;1;2] [1;2;5])%nat 2%nat == (1 # 2).
+  prob (ps_inter_tree [0;1;2] [1;2;5])%nat 2%nat == (1 # 2) /\
+  (* three operands, the third one not sampled (higher dimension): atom 2 is the only common one *)
+  prob (inter_tree_n mu [[0;1;2]; [1;2;3]; [2;3;4]] [[0;1;2]; [1;2;3]])%nat 2%nat == 3 * ((1 # 6) + (3 # 6) * (1 # 8)) /\
+  prob (inter_tree_n mu [[0;1;2]; [1;2;3]; [2;3;4]] [[0;1;2]; [1;2;3]])%nat 1%nat == 0 /\
+  (* a polygon of two triangles in bounding boxes twice / 1.5 times their size, two rounds of the rejection loop *)
+  prob (poly_tree (fun _ : nat => 1%Q) 2 [([0;1;2;3], [0;1]); ([4;5;6], [4;5])])%nat 0%nat == (1 # 4) * (1 - (1 # 4)) /\
+  prob (poly_tree (fun _ : nat => 1%Q) 2 [([0;1;2;3], [0;1]); ([4;5;6], [4;5])])%nat 4%nat == (1 # 4) * (1 - (1 # 9)).
 Proof. vm_compute. repeat split. Qed.
